@@ -153,6 +153,11 @@ def directed():
                             1.7e9 - 3599.9], (0.5, None, True),
                    [("read", "elapsed"), ("read", "elapsed"), ("read", "elapsed"), ("read", "expired"), ("read", "remaining"),
                     ("read", "elapsed")], dyadic=False))
+    # binary64 residue: elapsed goes back by one ulp on the second backward step (the model reproduces it bit for bit)
+    out.append(_ck("mono", [0.1, 0.1, 0.7999999999999999, 0.8999999999999999, 0.5666666666666667, 0.26666666666666666],
+                   (1.0, None, True), [("read", "elapsed")] * 4, dyadic=False))
+    out.append(_ck("mono", [0.1, 0.1, 0.7999999999999999, 1.2, 0.5666666666666667, 0.26666666666666666, 0.1, 0.05],
+                   (0.8999999999999999, None, True), [("read", "expired")] * 6, dyadic=False))
     # script used up: the clock then reads 0.0
     out.append(_ck("mono", [5.0], (1.0, None, True), [("read", "elapsed"), ("read", "expired")]))
     return out
@@ -556,11 +561,17 @@ def _oracle_clock(case, obs):
                     v = r[1][1]
                     if v is not (el1 >= _q(nsnap[1]) - _q(nsnap[0])):
                         return f"{where}: expired {v} but elapsed {float(el1)!r} duration {nsnap[1] - nsnap[0]!r}"
+                if o[0] == "latest" and not _same(F(r[1][1]), nsnap[2]):
+                    return f"{where}: latest returned {r}, _last is {nsnap[2]!r}"
+            # expired is latched in binary64 too (rounding is monotone): checked on every finite case
+            if _finite(*snap, *nsnap, now):
+                if o[0] == "read" and o[1] == "expired":
+                    v = r[1][1]
                     if latched and not v:
                         return f"{where}: expired reverted to False"
                     latched = latched or v
-                if o[0] == "latest" and not _same(F(r[1][1]), nsnap[2]):
-                    return f"{where}: latest returned {r}, _last is {nsnap[2]!r}"
+            else:
+                latched = False
         snap = nsnap
     if obs["unread"] != max(0, len(clock) - used):
         return "clock readings consumed outside the ops"
@@ -687,3 +698,39 @@ def distribution(cases, obs):
         if c["cls"] == "tymer":
             d["tymer_unwound_typeerrors"] += sum(1 for s in o["steps"] if s[0][0] == "exc")
     return d
+
+
+def extra(tier, ctx):
+    """Exhaustive small-grid sweep of the direct oracle on the real classes (no model involved):
+    MonoTimer under every clock script over {0,1,2,3} of length 7 (thorough: {0..4}, length 8) for both retro
+    settings and two op patterns; Tymer under every (start, duration, restart tyme, read tyme) on a 0..4 grid."""
+    import itertools
+    vals = [0.0, 1.0, 2.0, 3.0] + ([4.0] if tier == "thorough" else [])
+    n = 8 if tier == "thorough" else 7
+    pats = [[["read", "elapsed"], ["read", "expired"]], [["read", "expired"], ["latest"], ["read", "remaining"], ["read", "elapsed"]]]
+    count = 0
+    for clock in itertools.product(vals, repeat=n):
+        for retro in (True, False):
+            for dur in (1.0, 2.0):
+                pat = pats[count % 2]
+                ops = [pat[i % len(pat)] for i in range(n - 2)]
+                case = {"cls": "mono", "dyadic": True, "clock": [H(x) for x in clock],
+                        "init": {"dur": H(dur), "start": None, "retro": retro}, "ops": ops}
+                count += 1
+                why = oracle(case, run_impl(case))
+                if why is not None:
+                    ctx.violations.append({"kind": "oracle-sweep", "why": why, "case": case})
+                    return {"sweep_cases": count}
+    grid = [0.0, 1.0, 2.0, 3.0, 4.0]
+    for st, d, t1, t2, t3 in itertools.product(grid, repeat=5):
+        case = _ty((st, d, None), [("read", t1, "expired"), ("read", t1, "elapsed"), ("restart", t2, None),
+                                   ("read", t3, "expired"), ("read", t3, "remaining"), ("restart", t1, None),
+                                   ("read", t3, "expired")])
+        count += 1
+        why = oracle(case, run_impl(case))
+        if why is not None:
+            ctx.violations.append({"kind": "oracle-sweep", "why": why, "case": case})
+            return {"sweep_cases": count}
+    return {"sweep_cases": count,
+            "sweep": f"direct oracle on the real MonoTimer for all {len(vals)}^{n} clock scripts x retro x 2 durations, "
+                     f"and on the real Tymer for a 5^5 grid of (start, duration, tymes)"}
